@@ -133,10 +133,29 @@ func cacheKillPoints(r *vk.Run) {
 	self := vk.SelfExe()
 	states := map[string]bool{}
 	maxN := r.N(40, 400)
-	for _, variant := range []string{"agg", "full", "agg-first", "full-first"} {
-		flavour := strings.TrimSuffix(variant, "-first")
+	// "-tmpdir": the writer runs with TMPDIR on another file system than the node's home (tmpfs /tmp of many
+	// distributions and containers): a writer that stages its files in the system's temporary directory cannot rename them
+	// into place there. Besides its write calls the writer is then also killed at its in-kernel copy calls.
+	variants := []string{"agg", "full", "agg-first", "full-first"}
+	otherFS := world.DirOnOtherFS(base)
+	if otherFS != "" {
+		defer os.RemoveAll(otherFS)
+		variants = append(variants, "agg-tmpdir", "full-tmpdir")
+		r.Set("cache_writer_tmpdir_on_other_file_system", otherFS)
+	} else {
+		r.Count("cache_writer_tmpdir_on_other_file_system_not_exercised", 1)
+	}
+	for _, variant := range variants {
+		flavour := strings.TrimSuffix(strings.TrimSuffix(variant, "-first"), "-tmpdir")
 		// "-first": the killed save is the first one ever (no older generation of cache files exists)
 		withOld := !strings.HasSuffix(variant, "-first")
+		// strace counts the invocations of each system call of a set separately, so each call is enumerated on its own
+		killAt := []string{"write,pwrite64"}
+		var env []string
+		if strings.HasSuffix(variant, "-tmpdir") {
+			killAt = append(killAt, "copy_file_range", "sendfile")
+			env = append(os.Environ(), "TMPDIR="+otherFS)
+		}
 		gen1 := filepath.Join(base, variant+"-gen1")
 		if withOld {
 			if out, err := exec.Command(self, "child", "c04-savecache", gen1, flavour, "3").CombinedOutput(); err != nil {
@@ -146,51 +165,63 @@ func cacheKillPoints(r *vk.Run) {
 		} else {
 			_ = os.MkdirAll(gen1, 0o755)
 		}
-		finished := false
-		for n := 1; n <= maxN && !finished; n++ {
-			dir := filepath.Join(base, fmt.Sprintf("%s-kill-%d", variant, n))
-			if err := copyDir(gen1, dir); err != nil {
-				r.Inconclusive("copy: " + err.Error())
-				return
-			}
-			cmd := exec.Command("strace", "-f", "-qq", "-o", "/dev/null", "-e", "trace=write,pwrite64",
-				"-e", fmt.Sprintf("inject=write,pwrite64:signal=KILL:when=%d", n),
-				self, "child", "c04-savecache", dir, flavour, "6")
-			out, err := cmd.CombinedOutput()
-			killed := err != nil
-			if !killed {
-				finished = true
-			} else if ee, ok := err.(*exec.ExitError); ok && ee.ExitCode() > 0 && ee.ExitCode() < 10 {
-				r.Inconclusive(fmt.Sprintf("cache child exited %d: %s", ee.ExitCode(), out))
+		for _, calls := range killAt {
+			finished := false
+			for n := 1; n <= maxN && !finished; n++ {
+				dir := filepath.Join(base, fmt.Sprintf("%s-kill-%d", variant, n))
+				if err := copyDir(gen1, dir); err != nil {
+					r.Inconclusive("copy: " + err.Error())
+					return
+				}
+				cmd := exec.Command("strace", "-f", "-qq", "-o", "/dev/null", "-e", "trace="+calls,
+					"-e", fmt.Sprintf("inject=%s:signal=KILL:when=%d", calls, n),
+					self, "child", "c04-savecache", dir, flavour, "6")
+				cmd.Env = env
+				out, err := cmd.CombinedOutput()
+				killed := err != nil
+				if !killed {
+					finished = true
+				} else if ee, ok := err.(*exec.ExitError); ok && ee.ExitCode() == 4 && env != nil {
+					// the writer was not killed: with TMPDIR on another file system it gave up saving on its own. Whether a
+					// clean stop may lose the caches is not this property's subject; a node must still start on what is there
+					killed, finished = false, true
+					r.Count("cache_writer_gave_up_with_tmpdir_on_other_file_system "+variant, 1)
+				} else if ee, ok := err.(*exec.ExitError); ok && ee.ExitCode() > 0 && ee.ExitCode() < 10 {
+					r.Inconclusive(fmt.Sprintf("cache child exited %d: %s", ee.ExitCode(), out))
+					os.RemoveAll(dir)
+					continue
+				}
+				st := dirState(dir)
+				newState := !states[variant+st]
+				states[variant+st] = true
+				// a node must start on what was left behind, and keep working
+				r.Hit("cache-kill-restart")
+				r.Count("cache_kill_points "+variant+" "+calls, 1)
+				node, err := world.NewNode(ctx, world.NodeOpts{Aggregator: flavour == "agg", RootDir: dir, DABlockTime: time.Hour},
+					world.NewKeys("proposer"), world.NewMemDS(world.NewImage()), world.NewExecDouble(), world.NewSeqDouble(), world.NewDADouble(), nil)
+				wit := map[string]any{"flavour": variant, "killed_at_call": calls, "killed_at_nth": n, "killed": killed, "files_left": st}
+				if killed && strings.HasSuffix(variant, "-tmpdir") {
+					r.Hit("cache-kill-restart-tmpdir-on-other-file-system")
+				}
+				if err != nil {
+					id := "C04-cache-truncation"
+					detail := fmt.Sprintf("cache writer (%s) killed at call #%d of %s left files on which the node cannot start: %v", variant, n, calls, err)
+					if r.IsKnown(id) {
+						r.Finding(id, "cache-kill-restart", detail, wit)
+					} else {
+						r.Violation("cache-kill-restart", detail, wit)
+					}
+				} else if flavour == "agg" {
+					if err := node.M.VerifPublishBlock(ctx); err != nil {
+						r.Violation("cache-kill-restart", "node started on the left-over cache files but cannot produce: "+err.Error(), wit)
+					}
+				}
+				r.Eval("cache "+variant+" "+st, killed && newState, wit)
 				os.RemoveAll(dir)
-				continue
 			}
-			st := dirState(dir)
-			newState := !states[variant+st]
-			states[variant+st] = true
-			// a node must start on what was left behind, and keep working
-			r.Hit("cache-kill-restart")
-			node, err := world.NewNode(ctx, world.NodeOpts{Aggregator: flavour == "agg", RootDir: dir, DABlockTime: time.Hour},
-				world.NewKeys("proposer"), world.NewMemDS(world.NewImage()), world.NewExecDouble(), world.NewSeqDouble(), world.NewDADouble(), nil)
-			wit := map[string]any{"flavour": variant, "killed_at_write": n, "killed": killed, "files_left": st}
-			if err != nil {
-				id := "C04-cache-truncation"
-				detail := fmt.Sprintf("cache writer killed at its write #%d left files on which the node cannot start: %v", n, err)
-				if r.IsKnown(id) {
-					r.Finding(id, "cache-kill-restart", detail, wit)
-				} else {
-					r.Violation("cache-kill-restart", detail, wit)
-				}
-			} else if flavour == "agg" {
-				if err := node.M.VerifPublishBlock(ctx); err != nil {
-					r.Violation("cache-kill-restart", "node started on the left-over cache files but cannot produce: "+err.Error(), wit)
-				}
+			if !finished {
+				r.Count("cache_kill_enumeration_truncated", 1)
 			}
-			r.Eval("cache "+variant+" "+st, killed && newState, wit)
-			os.RemoveAll(dir)
-		}
-		if !finished {
-			r.Count("cache_kill_enumeration_truncated", 1)
 		}
 	}
 	r.Set("cache_writer_distinct_leftover_states", len(states))
